@@ -204,7 +204,8 @@ def finish(ctx, lock_mode=False):
         with open(os.path.join(VERIF, path), "w") as fh:
             json.dump({"property": prop, "check": check, "obligation": obligation,
                        "witness": _jsonable(witness), "replayed_natively": not unreplayed,
-                       "solver_output": solver_output, "repo": ctx.repo_root}, fh, indent=1, default=repr)
+                       "solver_output": solver_output, "repo": ctx.repo_root,
+                       "seed": ctx.seed, "tier": ctx.tier}, fh, indent=1, default=repr)
         violations.append((check, obligation, path, unreplayed))
 
     for r in ctx.proofs:
@@ -360,7 +361,12 @@ def finish(ctx, lock_mode=False):
         "wall_s": round(wall, 3),
         "violations": len(violations),
     }
-    with open(os.path.join(VERIF, "evidence", f"{prop}.json"), "w") as fh:
+    evdir = os.path.join(VERIF, "evidence")
+    if os.path.realpath(ctx.repo_root) != os.path.realpath("/repo"):
+        # a scratch tree (seeded change, self-test): never overwrite the evidence of /repo
+        evdir = os.path.join(VERIF, "replays", "evidence-" + os.path.basename(ctx.repo_root.rstrip("/")))
+        os.makedirs(evdir, exist_ok=True)
+    with open(os.path.join(evdir, f"{prop}.json"), "w") as fh:
         json.dump(evidence, fh, indent=1, default=repr)
     print(f"{prop} tier={ctx.tier}: VCs {n_discharged}/{n_vc} discharged, ground/frame {n_ground_ok}/{n_ground}, "
           f"bounded evaluations {evaluations} ({nontrivial} distinct non-trivial), undecided {len(undecided)}, "
